@@ -5,7 +5,8 @@ P:  coq/Stats/{Model,Inv,Proofs,Props}.v — registries + call sites of src/stat
 T2: wire harness.  Histories of logins (ok / wrong password / unknown db / admin), simple and extended
     transactions, checkout failures (pool exhausted, backend down, failed health check), replica bans, clean (X)
     and abrupt (socket close) exits at idle / in a transaction / while waiting, shutdown, and the confirmed panic
-    inputs.  After every quiescent point: pooler::snapshot (registries through the public API) AND the admin
+    inputs (the task still panics; since /repo ca5e3a4 its row is removed by Drop for Client — a row that stays, or
+    a client retrying its next candidate that is shown idle (repaired by b38aae6), is a VIOLATION).  After every quiescent point: pooler::snapshot (registries through the public API) AND the admin
     console (SHOW POOLS / CLIENTS / SERVERS / LISTS / STATS through an md5-authenticated admin client), compared
     with (a) the Coq model evaluated on the op sequence the history induces (ops are derived from the scripted
     actions, the clients' own replies and the mock backends' logs — never from the statistics), (b) the scripted
@@ -36,8 +37,8 @@ PANICS = {
 }
 CSTATE = {0: "idle", 1: "waiting", 2: "active"}
 SSTATE = {0: "login", 1: "active", 2: "tested", 3: "idle"}
-F_PANIC = "F28-panic-leaks-client-row"
-F_WAIT = "F29-waiting-shown-idle"
+F_PANIC = "F31-panic-leaks-client-row"     # repaired by /repo ca5e3a4: a recurrence is a violation
+F_WAIT = "F32-waiting-shown-idle"          # repaired by /repo b38aae6: a recurrence is a violation
 
 
 # =========================================================================================== worlds
@@ -570,6 +571,7 @@ class Derive:
         self.prev_tasks, self.new_tasks = [], []
         self.done_req = set()
         self.sidmap, self.sidinfo = {}, {}
+        self.initer = {}         # client -> blocked on a candidate inside pool.get
         self.banned = set()      # replica addresses on the ban list (a checkout that meets a banned address unbans it
                                  # - it is the only replica - and forces a health check: pool.rs try_unban / force_healthcheck)
 
@@ -604,6 +606,7 @@ class Derive:
         return out
 
     def after_exit(self, c):
+        self.initer[c] = False
         s = self.held.pop(c, None)
         if s is not None:
             self.srv[s]["holder"] = None
@@ -677,8 +680,11 @@ class Derive:
                 self.done_req.add(req["rlabel"])
                 return
         if c not in self.held and not self.inchk.get(c):
-            ops.append("CheckoutStart %d" % self.cid(c))
+            # client.rs waiting(), then pool.get: the first iteration of the candidate loop (waiting() again) blocks
+            # on its candidate
+            ops += ["CheckoutStart %d" % self.cid(c), "CandidateTry %d" % self.cid(c)]
             self.inchk[c] = True
+            self.initer[c] = True
 
     def classify(self, ev):
         frames = ev["frames"] if ev else []
@@ -726,9 +732,12 @@ class Derive:
                 ops.append("CheckoutOk %d %d" % (cid, s))
                 self.held[c] = s
                 self.srv[s]["holder"] = c
-                self.inchk[c] = False
+                self.inchk[c] = self.initer[c] = False
             elif cls == "poolfail":
                 for a1 in ([a] if a else []):
+                    if not self.initer.get(c):
+                        ops.append("CandidateTry %d" % cid)     # every further iteration starts with waiting()
+                    self.initer[c] = False
                     dead = self.idle_srv(a1, dead=True)
                     if dead and (self.w["hc_always"] or force_hc):
                         ops += ["TestServer %d" % dead[0], "CandidateFail %d %d true" % (cid, a1["id"])]
@@ -737,6 +746,9 @@ class Derive:
                         ops.append("CandidateFail %d %d false" % (cid, a1["id"]))
                     if a1["replica"]:
                         self.banned.add(a1["id"])
+                if self.initer.get(c):
+                    ops.append("CandidateSkip %d" % cid)        # (no candidate at all: not generated)
+                    self.initer[c] = False
                 ops.append("CheckoutGiveUp %d" % cid)
                 self.inchk[c] = False
                 self.fails[c] = self.fails.get(c, 0) + 1
@@ -762,8 +774,8 @@ class Derive:
                     self.notes.append("request of %s ended %s with no dead idle connection known" % (c, cls))
                 return
             elif cls == "shutdown":
-                ops.pop()    # no checkout: the task left at the top of its loop
-                self.inchk[c] = False
+                del ops[-2:]    # no checkout: the task left at the top of its loop
+                self.inchk[c] = self.initer[c] = False
                 ops.append("ExitOk %d" % cid)
                 self.after_exit(c)
                 return
@@ -837,6 +849,7 @@ class Derive:
         if self.phase.get(c) != "handle" or not self.inchk.get(c):
             return
         ops += ["CandidateFail %d %d false" % (cid, a["id"]), "CheckoutGiveUp %d" % cid, "ExitErr %d false" % cid]
+        self.inchk[c] = False
         if a["replica"]:
             self.banned.add(a["id"])
         self.after_exit(c)
@@ -863,27 +876,32 @@ class Derive:
                 t = "/*c18:%s:1*/" % self.h.cl[c]["app"]
                 s = self.find_server(t)
                 cid = self.cid(c)
-                ops.append("CheckoutStart %d" % cid)
+                ops += ["CheckoutStart %d" % cid, "CandidateTry %d" % cid]
                 other = 1 - self.srv[s]["addr"]
                 # a client that tried the busy candidate first paid one connect_timeout there
                 if c == "c2" and self.variant[0]:
-                    ops.append("CandidateFail %d %d false" % (cid, other))
+                    ops += ["CandidateFail %d %d false" % (cid, other), "CandidateTry %d" % cid]
                 ops += ["CheckoutOk %d %d" % (cid, s), "QueryDone %d %d" % (cid, s)]
                 self.held[c] = s
                 self.srv[s]["holder"] = c
                 self.ledger[c][0] += 1
-            ops.append("CheckoutStart %d" % c3)
+            ops += ["CheckoutStart %d" % c3, "CandidateTry %d" % c3]
+            self.inchk["c3"] = self.initer["c3"] = True
         elif ph == 2:
-            ops.append("CandidateFail %d %d false" % (c3, self.variant[1]))
+            # the first candidate failed; the client is blocked on the second one (and must be shown waiting)
+            ops += ["CandidateFail %d %d false" % (c3, self.variant[1]), "CandidateTry %d" % c3]
         else:
+            self.inchk["c3"] = self.initer["c3"] = False
             ops += ["CandidateFail %d %d false" % (c3, 1 - self.variant[1]), "CheckoutGiveUp %d" % c3]
 
     def k_tested(self, entry, ops, drops):
         c1 = self.cid("c1")
         s = [s for s, y in self.srv.items() if y["live"]][0]
         if entry["phase"] == 1:
-            ops += ["CheckoutStart %d" % c1, "TestServer %d" % s]
+            ops += ["CheckoutStart %d" % c1, "CandidateTry %d" % c1, "TestServer %d" % s]
+            self.inchk["c1"] = self.initer["c1"] = True
         else:
+            self.inchk["c1"] = self.initer["c1"] = False
             ops += ["CandidateFail %d 0 true" % c1, "CheckoutGiveUp %d" % c1]
             drops.append(s)
 
@@ -895,7 +913,7 @@ def render_ops(ops):
 def coq_expr(h, segs):
     cf = "[" + "; ".join("(%d, %s)" % (a["pool"], "true" if a["replica"] else "false") for a in h.w["addrs"]) + "]"
     allops = [o for s in segs for o in s]
-    return ("let cf := %s in let segs := [%s] in let ops := concat segs in (run_samples cf %d init segs, first_disabled cf init ops 0, known_c18 ops, known_c18_wait cf ops)"
+    return ("let cf := %s in let segs := [%s] in let ops := concat segs in (run_samples cf %d init segs, first_disabled cf init ops 0)"
             % (cf, "; ".join(render_ops(s) for s in segs), len(h.w["pools"])))
 
 
@@ -1047,14 +1065,15 @@ def derive_history(h, res, variant=(False, 0)):
                 pid = h.cl[c]["pool"]
                 connected[pid] = connected.get(pid, 0) + 1
         truth.append({"connected": connected, "ledger": {h.cl[c]["app"]: tuple(v) for c, v in d.ledger.items() if d.phase.get(c) == "handle"},
-                      "synth": dict(d.synth), "seq": hi, "holders": sorted(h.cl[c]["app"] for c in d.held)})
+                      "synth": dict(d.synth), "seq": hi, "holders": sorted(h.cl[c]["app"] for c in d.held),
+                      "waiting": sorted(h.cl[c]["app"] for c, v in d.initer.items() if v and d.phase.get(c) == "handle")})
     return d, segs, truth
 
 
 def judge_history(h, res, d, segs, truth, mval):
     """Compare one history.  -> dict(diffs=[(sample, text)], monitors=[(sample, kind, text)], n, panics, obs)"""
     out = {"diffs": [], "monitors": [], "n": 0, "obs": []}
-    samples, disabled, kpanic, kwait = mval
+    samples, disabled = mval
     if disabled is not None:
         allops = [o for s in segs for o in s]
         out["diffs"].append((-1, "op #%d (%s) of the derived history is not executable in the model" % (disabled[1], allops[disabled[1]])))
@@ -1086,15 +1105,19 @@ def judge_history(h, res, d, segs, truth, mval):
             want = tr["connected"].get(pid, 0)
             if tot != want:
                 out["monitors"].append((i, "pool-sum", "pool %s: cl_idle+cl_active+cl_waiting = %d but %d clients are connected" % (db, tot, want)))
-            if row[1] != row[3] and not npanic:
+            if row[1] != row[3]:
                 out["monitors"].append((i, "active-mismatch", "pool %s: cl_active %d but sv_active %d" % (db, row[1], row[3])))
         # number of rows of SHOW CLIENTS = connected clients (admin included)
         if len(im["adm"]["clients"]) != sum(tr["connected"].values()):
             out["monitors"].append((i, "client-rows", "SHOW CLIENTS lists %d clients, %d are connected" % (len(im["adm"]["clients"]), sum(tr["connected"].values()))))
         # active <=> holds a server (harness: a client whose last ReadyForQuery said T/E, or a session-mode client that was served)
         act = sorted(r[0] for r in im["adm"]["clients"] if r[2] == "active")
-        if not npanic and act != tr["holders"]:
+        if act != tr["holders"]:
             out["monitors"].append((i, "true-state", "clients shown active %s, clients holding a server %s" % (act, tr["holders"])))
+        # waiting <=> blocked on a candidate server inside pool.get (harness: asked, no answer yet, socket may be closed)
+        wt = sorted(r[0] for r in im["adm"]["clients"] if r[2] == "waiting")
+        if wt != tr["waiting"]:
+            out["monitors"].append((i, "waiting-state", "clients shown waiting %s, clients blocked in pool.get %s" % (wt, tr["waiting"])))
         # (b) the clients' own ledger
         rows = {r[0]: r for r in im["adm"]["clients"]}
         for app, (q, x) in tr["ledger"].items():
@@ -1124,7 +1147,7 @@ def judge_history(h, res, d, segs, truth, mval):
                         out["monitors"].append((i, "decrease", "row %s of %s went from %s to %s" % (rid, key, pv, vals)))
         prev = im["adm"]
     # everything gone?  (no connected client at the end: nothing may be left but idle servers)
-    if h.plan and not npanic:
+    if h.plan:
         tr = truth[-1]
         im_last = canon_impl(h, res["snapshots"][-1], admin_rows(res, h.plan[-1]["label"]))
         if im_last["adm"] and set(tr["connected"]) <= {0}:
@@ -1132,13 +1155,12 @@ def judge_history(h, res, d, segs, truth, mval):
                 if row[0] or row[1] or row[2] or row[3]:
                     out["monitors"].append((len(h.plan) - 1, "not-zero", "every client has gone but SHOW POOLS %s says %s" % (db, row)))
     out["npanic"] = npanic
-    out["kpanic"], out["kwait"] = kpanic, kwait
     return out
 
 
 def parse_model(v):
-    samples, disabled, kp, kw = vlib.parse_coq(v)
-    return samples, disabled, kp, kw
+    samples, disabled = vlib.parse_coq(v)
+    return samples, disabled
 
 
 # =========================================================================================== driver
@@ -1239,12 +1261,10 @@ def check(run):
 
 
 def report(run, hs, results, verdicts, proof_ok, log):
-    known = {e.get("id"): e for e in vlib.known_findings("C18")}
     evals = 0
     distinct = set()
     kinds = {}
     harness_fail = 0
-    panic_hits, wait_hits = [], []
     outcome_hist = {}
     samples = []
     notes = 0
@@ -1262,6 +1282,18 @@ def report(run, hs, results, verdicts, proof_ok, log):
             outcome_hist[str(o)] = outcome_hist.get(str(o), 0) + 1
         kinds[h.w["kind"]] = kinds.get(h.w["kind"], 0) + 1
         run.cov["traces_validated_against_impl"] += 1
+        # the property's own predicates first (a direct counterexample), then the model
+        if v["monitors"]:
+            i, kind, text = v["monitors"][0]
+            cls = None
+            if kind in ("pool-sum", "client-rows", "not-zero") and v["npanic"]:
+                e = h.plan[max([j for j in range(min(i, len(h.plan) - 1) + 1) if h.plan[j]["kind"] == "panic"] or [0])]
+                cls = "%s (recurrence of the repaired defect: a panicking client task keeps its row; bytes %s)" % (F_PANIC, e.get("hex"))
+            elif kind == "waiting-state":
+                cls = "%s (recurrence of the repaired defect if a client retrying its next candidate is shown idle)" % F_WAIT
+            run.violation("counterexample", "history %s, sample %d (%s): %s%s" % (h.name, i, kind, text, (" [" + cls + "]") if cls else ""),
+                          dict(replay_dict(h, res, v, i), monitor=kind, all_monitors=[list(m) for m in v["monitors"]][:10], **({"class": cls} if cls else {})))
+            continue
         if v["diffs"]:
             i, text = v["diffs"][0]
             run.cov["disagreements_checked"] += 1
@@ -1269,50 +1301,14 @@ def report(run, hs, results, verdicts, proof_ok, log):
                           dict(replay_dict(h, res, v, i), correspondence="Stats/Model.v run_samples vs pooler::snapshot + admin console", all_diffs=[t for _, t in v["diffs"]][:10]),
                           found_input=True)
             continue
-        # monitors: classify against the known classes
-        for (i, kind, text) in v["monitors"]:
-            if kind in ("pool-sum", "client-rows") and v["npanic"]:
-                panic_hits.append((h, res, v, i, text))
-            else:
-                run.violation("counterexample", "history %s, sample %d (%s): %s" % (h.name, i, kind, text),
-                              dict(replay_dict(h, res, v, i), monitor=kind))
-                break
-        if h.name == "waiting-shown-idle" and not v["diffs"]:
-            wait_hits.append((h, res, v))
         if len(samples) < 6 and h.name in ("panic-q-empty-single-idle", "all-leave-two", "waiting-shown-idle", "rnd0-" + h.w["kind"], "rnd1-" + h.w["kind"], "shutdown"):
             samples.append({"history": h.name, "world": h.w["kind"], "ops": v["segs"], "last_model_obs": v["obs"][-1][2][:600] if v["obs"] else None})
-    # panic class
     npanic_hist = sum(1 for v in verdicts if v.get("npanic"))
-    if panic_hits:
-        byhex = {}
-        for (h, res, v, i, text) in panic_hits:
-            e = h.plan[max(j for j in range(i + 1) if h.plan[j]["kind"] == "panic")]
-            byhex.setdefault(e["hex"], []).append((h.name, text))
-        ex = "; ".join("bytes %s (%s): %d histories, e.g. %s: %s" % (hx, [k for k, p in PANICS.items() if p[0] == hx][0], len({n for n, _ in l}), l[0][0], l[0][1]) for hx, l in sorted(byhex.items()))
-        text = ("a client message that makes the client's task panic leaves its row in CLIENT_STATS for ever (SHOW CLIENTS lists it, SHOW POOLS counts it in cl_idle/cl_active, "
-                "SHOW LISTS in free/used_clients): stats.disconnect() is only reached on Ok/Err returns of handle(). Confirmed inputs after startup: %s [Stats/Props.v c18_panic_leaks_row_refuted, c18_only_panic_leaks]" % ex)
-        e = known.get(F_PANIC)
-        if e is not None and e.get("status") == "fixed":
-            run.violation("counterexample", "listed as fixed but still happens: " + text, dict(replay_dict(panic_hits[0][0], panic_hits[0][1], panic_hits[0][2], panic_hits[0][3]), **{"class": F_PANIC}))
-        else:
-            run.known_finding((e.get("line") if e and e.get("line") else text), key=F_PANIC)
-    if wait_hits:
-        h, res, v = wait_hits[0]
-        m = json.loads(v["obs"][-2][2])
-        waiting_row = [r for r in m["clients"] if r[0] == h.cl["c3"]["app"]]
-        if waiting_row and waiting_row[0][2] == "idle":
-            text = ("a client still inside pool.get is shown idle (cl_waiting 0) once its first candidate server failed: checkout_error()/ban_error() set Idle and the loop goes on with the next candidate "
-                    "(two servers, both pool-exhausted, default_role any: second half of the wait shows %s) [Stats/Props.v c18_waiting_shown_idle_refuted]" % (waiting_row[0],))
-            e = known.get(F_WAIT)
-            if e is not None and e.get("status") == "fixed":
-                run.violation("counterexample", "listed as fixed but still happens: " + text, dict(replay_dict(h, res, v, len(h.plan) - 2), **{"class": F_WAIT}))
-            else:
-                run.known_finding((e.get("line") if e and e.get("line") else text), key=F_WAIT)
     run.cov["evaluations"] = evals
     run.cov["distinct_nontrivial"] = len(distinct)
     run.cov["rule"] = ("one evaluation = one quiescent sample (registries via public API + 5 admin SHOW commands) compared with the model; histories: %d directed "
                        "(every confirmed panic input at idle / in transaction / admin, every way of leaving, failure limit, lone Sync, shutdown, health-check failure and server death on primary and replica, "
-                       "waiting-shown-idle, tested and login states) + seeded random over 5 world kinds (single, two pools, primary+replica, session mode; pool_size 1-2, health check always/never, checkout_failure_limit); "
+                       "waiting while retrying the next candidate, tested and login states) + seeded random over 5 world kinds (single, two pools, primary+replica, session mode; pool_size 1-2, health check always/never, checkout_failure_limit); "
                        "distinct = distinct (world kind, action, detail, canonical model observation)" % (len(hs) - sum(1 for h in hs if h.name.startswith("rnd"))))
     run.cov["samples"] = samples[:6]
     run.cov["input_distribution"] = {"histories": len(hs), "by_world": kinds, "histories_with_panic": npanic_hist, "outcomes": dict(sorted(outcome_hist.items(), key=lambda kv: -kv[1])[:40]),
